@@ -30,16 +30,27 @@ theorem c04_mutual_exclusion (s : CS) (h : CReach s) :
     have := (hi.meta_iff u).mpr ⟨hu, hm⟩
     rw [ht] at this; exact (Option.some.inj this).symm
 
-/-- the segment in which a `set` takes the write lock and replaces the value -/
-def CS.isStore (s : CS) (t : Nat) : Bool :=
+/-- the value a segment stores, if it is the segment in which a writing call takes the write lock and replaces the
+    value: `set v` always, `set_if_not_eq v` when `v` differs from the current value, `update` always -/
+def CS.storeOf (s : CS) (t : Nat) : Option Nat :=
   match s.ths[t]? with
-  | some th => (match th.op with | .set _ => true | _ => false) && th.pc == .start
-  | none => false
+  | some th =>
+    if th.pc == .start then
+      match th.op with
+      | .set v => some v
+      | .sne v => if s.value = v then none else some v
+      | .update k => some (s.value + k)
+      | _ => none
+    else none
+  | none => none
 
-/-- **Only a store changes the value**, and it records the value it replaced as the call's result. -/
+def CS.isStore (s : CS) (t : Nat) : Bool := (s.storeOf t).isSome
+
+/-- **Only a store changes the value**: a step of any thread either is the store segment of a writing call and
+    leaves exactly the value that call writes (`set`/`set_if_not_eq`: its argument, `update`: the closure applied
+    to the current value — no update is lost), or leaves the value as it is. -/
 theorem c04_value_frame (s s' : CS) (t : Nat) (h : s.adv t = some s') :
-    (s.isStore t = true ∧ ∃ v, (s.thAt t).op = .set v ∧ s'.value = v ∧ (s'.thAt t).pc = .writeBeforeNotify s.value) ∨
-    (s.isStore t = false ∧ s'.value = s.value) := by
+    (∃ v, s.storeOf t = some v ∧ s'.value = v) ∨ (s.storeOf t = none ∧ s'.value = s.value) := by
   unfold CS.adv at h
   cases hth : s.ths[t]? with
   | none => simp [hth] at h
@@ -48,9 +59,42 @@ theorem c04_value_frame (s s' : CS) (t : Nat) (h : s.adv t = some s') :
     simp only [hth] at h
     split at h <;> (try (split at h)) <;> (try (split at h)) <;> simp only [Option.some.injEq, reduceCtorEq] at h <;> (try subst h)
     all_goals (first
-      | (right; simp_all [CS.isStore]; done)
-      | (left; simp_all [CS.isStore, CS.thAt]; done)
-      | (right; cases hat : s.atomicDrop <;> simp_all [CS.isStore]; done))
+      | (right; simp_all [CS.storeOf]; done)
+      | (left; simp_all [CS.storeOf]; done)
+      | (right; cases hat : s.atomicDrop <;> simp_all [CS.storeOf]; done))
+
+/-- what the store segment of a `set` / a successful `set_if_not_eq` remembers as the call's result: the value it
+    replaced -/
+theorem c04_store_records_prev (s s' : CS) (t : Nat) (th : Th) (hth : s.ths[t]? = some th) (hpc : th.pc = .start)
+    (h : s.adv t = some s') :
+    (∀ v, th.op = .set v → (s'.thAt t).pc = .writeBeforeNotify s.value) ∧
+    (∀ v, th.op = .sne v → s.value ≠ v → (s'.thAt t).pc = .writeBeforeNotify s.value) ∧
+    (∀ v, th.op = .sne v → s.value = v →
+        s'.value = s.value ∧ s'.version = s.version ∧ s'.wakers = s.wakers ∧ (s'.thAt t).res = .optPrev none ∧
+        (s'.thAt t).pc = .finished) := by
+  have ht : t < s.ths.length := (thAt_eq s t th hth).2
+  unfold CS.adv at h
+  simp only [hth] at h
+  refine ⟨?_, ?_, ?_⟩
+  · intro v hop
+    rw [hop, hpc] at h
+    simp only at h
+    split at h
+    · simp at h
+    · simp at h; subst h; simp [CS.thAt, ht]
+  · intro v hop hne
+    rw [hop, hpc] at h
+    simp only at h
+    split at h
+    · simp at h
+    · simp at h; subst h; simp [CS.thAt, ht]
+  · intro v hop heq
+    subst heq
+    rw [hop, hpc] at h
+    simp only at h
+    split at h
+    · simp at h
+    · simp at h; subst h; simp [CS.thAt, ht]
 
 /-- the stores of a run, in order: (value replaced, value written) -/
 def CS.runLog (s : CS) : List Nat → CS × List (Nat × Nat)
@@ -78,9 +122,9 @@ theorem c04_set_chain (s : CS) (sched : List Nat) : Chain s.value (s.runLog sche
     | none => exact ih s
     | some s' =>
       simp only
-      rcases c04_value_frame s s' t h with ⟨hs, _⟩ | ⟨hs, hv⟩
-      · simp only [hs, if_true, Chain, true_and]; exact ih s'
-      · simp only [hs, Bool.false_eq_true, if_false]; rw [← hv]; exact ih s'
+      rcases c04_value_frame s s' t h with ⟨v, hs, _⟩ | ⟨hs, hv⟩
+      · simp only [CS.isStore, hs, Option.isSome_some, if_true, Chain, true_and]; exact ih s'
+      · simp only [CS.isStore, hs, Option.isSome_none, Bool.false_eq_true, if_false]; rw [← hv]; exact ih s'
 
 /-- `runLog` and `run` reach the same state -/
 theorem c04_runLog_state (s : CS) (sched : List Nat) : (s.runLog sched).1 = s.run sched := by
@@ -116,9 +160,11 @@ theorem c04_reads_current (s s' : CS) (t : Nat) (th : Th) (hth : s.ths[t]? = som
       · simp at h; subst h; simp [CS.thAt, ht] at hv; exact hv.symm
       · simp at h; subst h; simp [CS.thAt, ht] at hv
 
-/-- a subscriber's observed version never goes backwards -/
-theorem c04_observed_monotone (s s' : CS) (t u : Nat) (h : s.adv t = some s') (hu : u < s.ths.length) :
-    (s.thAt u).observed ≤ (s'.thAt u).observed := by
+/-- a subscriber's observed version never goes backwards — `next_now` on an observable that has been closed
+    (version 0) being the one exception: it records the closed state's version -/
+theorem c04_observed_monotone (s s' : CS) (t u : Nat) (hi : WInv s) (h : s.adv t = some s') (hu : u < s.ths.length) :
+    (s.thAt u).observed ≤ (s'.thAt u).observed ∨ (s.version = 0 ∧ t = u ∧ (s.thAt t).op = .nextNow) := by
+  have hobs := hi.obs_le u hu
   unfold CS.adv at h
   cases hth : s.ths[t]? with
   | none => simp [hth] at h
@@ -131,9 +177,34 @@ theorem c04_observed_monotone (s s' : CS) (t u : Nat) (h : s.adv t = some s') (h
       simp only [CS.thAt, List.getElem?_set] at *
       by_cases hut : t = u <;> grind)
 
+/-- `next_now` takes effect in one segment: it hands out the current value — the value of the latest store that
+    precedes it in the run — and marks exactly the current version as observed, changing nothing else. -/
+theorem c04_next_now_current (s s' : CS) (t : Nat) (th : Th) (hth : s.ths[t]? = some th) (hop : th.op = .nextNow)
+    (hpc : th.pc = .start) (h : s.adv t = some s') :
+    (s'.thAt t).res = .value s.value ∧ (s'.thAt t).observed = s.version ∧ (s'.thAt t).pc = .finished ∧
+    s'.value = s.value ∧ s'.version = s.version ∧ s'.wakers = s.wakers ∧ s.writer = none := by
+  have ht : t < s.ths.length := (thAt_eq s t th hth).2
+  unfold CS.adv at h
+  simp only [hth] at h
+  rw [hop, hpc] at h
+  simp only at h
+  split at h
+  · simp at h
+  · rename_i hfree
+    simp at h; subst h
+    simp only [Bool.or_eq_true, not_or, Bool.not_eq_true, Option.isSome_eq_false_iff, Option.isNone_iff_eq_none] at hfree
+    simp [CS.thAt, ht, hfree.1]
+
 -- non-vacuity: two writers and a reader
 example :
     let r := (CS.init true 1 2 1 [(.set 5, false), (.set 6, false), (.get, false)]).runLog [1, 0, 1, 1, 0, 2, 0, 0, 2]
     r.2 = [(1, 6), (6, 5)] ∧ r.1.value = 5 ∧ (r.1.thAt 2).res = .value 5 ∧ (r.1.thAt 0).res = .prev 6 := by decide
+
+-- a `set_if_not_eq` that finds its value already stored, one that does not, an `update` and a `next_now`
+example :
+    let r := (CS.init true 1 3 1 [(.sne 1, false), (.sne 4, false), (.update 10, false), (.nextNow, false)]).runLog
+               [0, 1, 3, 1, 1, 2, 2, 3]
+    r.2 = [(1, 4), (4, 14)] ∧ r.1.value = 14 ∧ (r.1.thAt 0).res = .optPrev none ∧ (r.1.thAt 1).res = .optPrev (some 1)
+      ∧ (r.1.thAt 3).res = .value 14 ∧ (r.1.thAt 3).observed = 3 ∧ r.1.version = 3 := by decide
 
 end EV
